@@ -53,8 +53,18 @@ package stack
 //@   trusted
 //@   modifies everything()
 
-//@ func (*Route).WritePacket props C07
+// C06/C11 at the hand-over from transport to network layer: a UDP datagram is handed down with
+// a length field that equals the bytes it carries (header in hdr, payload in payload).
+//@ func (*Route).WritePacket props C07 C06 C11
 //@   trusted
+//@   requires implies(protocol == header.UDPProtocolNumber, len(hdr.buf) - hdr.usedIdx >= 8 && int(be16(hdr.buf, hdr.usedIdx + 4)) == len(hdr.buf) - hdr.usedIdx + payload.size)
+//@   modifies everything()
+
+// C06 at the hand-over from network to link layer: an IPv4 packet is handed down with a total
+// length field that equals the bytes it carries, and a header checksum that verifies.
+//@ func (LinkEndpoint).WritePacket props C07 C06 C11
+//@   nobody
+//@   requires implies(protocol == header.IPv4ProtocolNumber, len(hdr.buf) - hdr.usedIdx >= 20 && int(be16(hdr.buf, hdr.usedIdx + 2)) == len(hdr.buf) - hdr.usedIdx + payload.size)
 //@   modifies everything()
 
 //@ func (*Route).Resolve props C07
